@@ -364,16 +364,20 @@ fn add_graph_constant(
     } else {
         // Constant data is stored inline in model
         let graph_node = if let Some(float_data) = constant.data_as_float_data() {
-            let const_data = constant_data_from_flatbuffers_vec(storage, float_data.data(), &shape);
+            let const_data =
+                constant_data_from_flatbuffers_vec(storage, float_data.data(), &shape, name)?;
             graph.add_constant(name, const_data)
         } else if let Some(int_data) = constant.data_as_int_32_data() {
-            let const_data = constant_data_from_flatbuffers_vec(storage, int_data.data(), &shape);
+            let const_data =
+                constant_data_from_flatbuffers_vec(storage, int_data.data(), &shape, name)?;
             graph.add_constant(name, const_data)
         } else if let Some(int8_data) = constant.data_as_int_8_data() {
-            let const_data = constant_data_from_flatbuffers_vec(storage, int8_data.data(), &shape);
+            let const_data =
+                constant_data_from_flatbuffers_vec(storage, int8_data.data(), &shape, name)?;
             graph.add_constant(name, const_data)
         } else if let Some(uint8_data) = constant.data_as_uint_8_data() {
-            let const_data = constant_data_from_flatbuffers_vec(storage, uint8_data.data(), &shape);
+            let const_data =
+                constant_data_from_flatbuffers_vec(storage, uint8_data.data(), &shape, name)?;
             graph.add_constant(name, const_data)
         } else {
             return Err(load_error!(
@@ -394,14 +398,21 @@ fn constant_data_from_flatbuffers_vec<'a, T: FromByteArray + flatbuffers::Follow
     storage: &Arc<ConstantStorage>,
     fb_vec: flatbuffers::Vector<'a, T>,
     shape: &[usize],
-) -> ConstantNodeData<T> {
+    name: Option<&str>,
+) -> Result<ConstantNodeData<T>, LoadError> {
+    let data_len = fb_vec.len();
+    let shape_error =
+        || load_error!(GraphError, name, "length {} does not match shape {:?}", data_len, shape);
+
     if let Some(elements) = cast_le_bytes(fb_vec.bytes()) {
         let storage =
             ArcSlice::new(storage.clone(), elements).expect("storage does not contain data");
-        ArcTensorView::from_data(shape, storage).into()
+        let view = ArcTensorView::try_from_data(shape, storage).map_err(|_| shape_error())?;
+        Ok(view.into())
     } else {
         let data: Vec<T> = fb_vec.iter().collect();
-        ArcTensor::from_data(shape, Arc::new(data)).into()
+        let tensor = ArcTensor::try_from_data(shape, Arc::new(data)).map_err(|_| shape_error())?;
+        Ok(tensor.into())
     }
 }
 
